@@ -99,30 +99,31 @@ theorem wgood_prefix (o : BodyOut) (pre : List Tok) (hp : WireOK pre) (h : WGood
 
 /-! ## handlers writing one scalar -/
 
-theorem wgood_zAdd_go (args : List Bytes) (key : Bytes) (now : Int) :
-    ∀ (ps : List (Bytes × Bytes)) (s : MState) (count : Int), WGood (zAdd.go args key now ps s count) := by
-  intro ps
-  induction ps with
-  | nil => intro s count; rw [zAdd.go]; exact wgood_done_tok _ _ rfl
-  | cons p more ih =>
-    intro s count
-    obtain ⟨sc, member⟩ := p
-    rw [zAdd.go]
-    split
-    · exact wgood_done_tok _ _ tokOK_unsup
+theorem wgood_zAddBody (args : List Bytes) (key : Bytes) (itemStart : Int) (s : MState) (now : Int) (ch : Choice) :
+    WGood (zAddBody args key itemStart s now ch) := by
+  unfold zAddBody
+  dsimp only
+  split
+  · exact wgood_done_tok _ _ rfl
+  · split
     · exact wgood_done_tok _ _ rfl
     · split
       · exact wgood_done_tok _ _ rfl
       · split
-        · apply wgood_call_all; intro s o
-          split
-          · exact wgood_done_tok _ _ (tokOK_fmtScore _)
-          · exact wgood_done_tok _ _ tokOK_unsup
-        · repeat' split
-          all_goals first
-            | (apply wgood_call_all; intro s o; exact wgood_done_tok _ _ rfl)
-            | exact wgood_panicOut_nil _
-            | exact ih _ _
+        · exact wgood_done_tok _ _ rfl
+        · split
+          · next t heq =>
+            rcases parseScores_error _ _ heq with rfl | rfl
+            · exact wgood_done_tok _ _ tokOK_unsup
+            · exact wgood_done_tok _ _ rfl
+          · split
+            · split
+              · exact wgood_panicOut_nil _
+              · apply wgood_call_all; intro s o
+                split
+                · exact wgood_done_tok _ _ (tokOK_fmtScore _)
+                · exact wgood_done_tok _ _ tokOK_unsup
+            · apply wgood_call_all; intro s o; exact wgood_done_tok _ _ rfl
 
 theorem wire_zAdd (args : List Bytes) : WireRes (Handler3.zAdd args) := by
   unfold Handler3.zAdd
@@ -134,7 +135,7 @@ theorem wire_zAdd (args : List Bytes) : WireRes (Handler3.zAdd args) := by
     · split
       · exact wire_errReply
       · intro s now ch
-        exact wgood_zAdd_go _ _ _ _ _ _
+        exact wgood_zAddBody _ _ _ _ _ _
 
 theorem wire_zCard (args : List Bytes) : WireRes (Handler3.zCard args) := by
   unfold Handler3.zCard
